@@ -8,7 +8,7 @@ from .common import BUILD, LEAN, REPO, VERIF, log, sh
 
 def setup():
     os.makedirs(BUILD, exist_ok=True)
-    res = extract.generate(list(extract.ENGINES))
+    res = extract.generate(extract.ENGINES.all())
     for k, v in res.items():
         if v is not None:
             log("setup: extraction of %s failed: %s" % (k, v))
